@@ -49,7 +49,7 @@ func (st *CompatibleSet[T]) add(ht Hint, v T) error {
 	}
 
 	// NOTE higher version of same major can be already added; it will be kept
-	st.cacheSet(ht.String(), [2]interface{}{ht, st.set[ht.Type()][ht.Version().Major()]})
+	st.cacheSet(hintCacheKey(ht.String()), [2]interface{}{ht, st.set[ht.Type()][ht.Version().Major()]})
 
 	switch eht, found := st.typeheadhints[ht.Type()]; {
 	case !found:
@@ -100,7 +100,7 @@ func (st *CompatibleSet[T]) addWithHint(ht Hint, v T) error {
 }
 
 func (st *CompatibleSet[T]) Find(ht Hint) (v T, found bool) {
-	switch _, i, found, foundincache, err := st.cacheGet(ht.String()); {
+	switch _, i, found, foundincache, err := st.cacheGet(hintCacheKey(ht.String())); {
 	case err != nil:
 		return v, false
 	case foundincache:
@@ -111,7 +111,7 @@ func (st *CompatibleSet[T]) Find(ht Hint) (v T, found bool) {
 }
 
 func (st *CompatibleSet[T]) FindByString(s string) (ht Hint, v T, found bool, _ error) {
-	switch i, j, cfound, foundincache, err := st.cacheGet(s); {
+	switch i, j, cfound, foundincache, err := st.cacheGet(hintCacheKey(s)); {
 	case err != nil:
 		return ht, v, false, err
 	case foundincache:
@@ -120,7 +120,7 @@ func (st *CompatibleSet[T]) FindByString(s string) (ht Hint, v T, found bool, _ 
 
 	switch h, err := ParseHint(s); {
 	case err != nil:
-		st.cacheSet(s, err)
+		st.cacheSet(hintCacheKey(s), err)
 
 		return ht, v, false, err
 	default:
@@ -131,7 +131,7 @@ func (st *CompatibleSet[T]) FindByString(s string) (ht Hint, v T, found bool, _ 
 }
 
 func (st *CompatibleSet[T]) FindBytType(t Type) (ht Hint, v T, found bool) {
-	switch ht, i, found, foundincache, err := st.cacheGet(t.String()); {
+	switch ht, i, found, foundincache, err := st.cacheGet(typeCacheKey(t.String())); {
 	case err != nil:
 		return ht, v, false
 	case foundincache:
@@ -142,7 +142,7 @@ func (st *CompatibleSet[T]) FindBytType(t Type) (ht Hint, v T, found bool) {
 }
 
 func (st *CompatibleSet[T]) FindBytTypeString(s string) (ht Hint, v T, found bool, _ error) {
-	switch i, j, cfound, foundincache, err := st.cacheGet(s); {
+	switch i, j, cfound, foundincache, err := st.cacheGet(typeCacheKey(s)); {
 	case err != nil:
 		return ht, v, false, err
 	case foundincache:
@@ -151,7 +151,7 @@ func (st *CompatibleSet[T]) FindBytTypeString(s string) (ht Hint, v T, found boo
 
 	t := Type(s)
 	if err := t.IsValid(nil); err != nil {
-		st.cacheSet(s, err)
+		st.cacheSet(typeCacheKey(s), err)
 
 		return ht, v, false, err
 	}
@@ -174,7 +174,7 @@ func (st *CompatibleSet[T]) Traverse(f func(Hint, T) bool) {
 func (st *CompatibleSet[T]) find(ht Hint) (v T, found bool) {
 	vs, found := st.set[ht.Type()]
 	if !found {
-		st.cacheSet(ht.String(), false)
+		st.cacheSet(hintCacheKey(ht.String()), false)
 
 		return v, false
 	}
@@ -183,9 +183,9 @@ func (st *CompatibleSet[T]) find(ht Hint) (v T, found bool) {
 
 	switch {
 	case !found:
-		st.cacheSet(ht.String(), false)
+		st.cacheSet(hintCacheKey(ht.String()), false)
 	default:
-		st.cacheSet(ht.String(), [2]interface{}{ht, v})
+		st.cacheSet(hintCacheKey(ht.String()), [2]interface{}{ht, v})
 	}
 
 	return v, found
@@ -194,7 +194,7 @@ func (st *CompatibleSet[T]) find(ht Hint) (v T, found bool) {
 func (st *CompatibleSet[T]) findBytType(t Type) (ht Hint, v T, found bool) {
 	vs, found := st.typeheads[t]
 	if !found {
-		st.cacheSet(t.String(), false)
+		st.cacheSet(typeCacheKey(t.String()), false)
 
 		return ht, v, false
 	}
@@ -202,7 +202,7 @@ func (st *CompatibleSet[T]) findBytType(t Type) (ht Hint, v T, found bool) {
 	ht = st.typeheadhints[t]
 	v = vs
 
-	st.cacheSet(t.String(), [2]interface{}{ht, v})
+	st.cacheSet(typeCacheKey(t.String()), [2]interface{}{ht, v})
 
 	return ht, v, true
 }
@@ -240,4 +240,14 @@ func (st *CompatibleSet[T]) cacheSet(s string, v interface{}) {
 	}
 
 	st.cache.Set(s, v, 0)
+}
+
+// NOTE lookups by hint and lookups by type do not share the cache keys; a type
+// string can be same with a hint string.
+func hintCacheKey(s string) string {
+	return "h:" + s
+}
+
+func typeCacheKey(s string) string {
+	return "t:" + s
 }
